@@ -22,7 +22,7 @@ EXPLANATION = ('Structural clause of C01 decided for all inputs: every lane-wise
 LEVEL_NOTE = ('Decides the structural clause, not the numeric behaviour of opaque algorithms. Trusted: rustc MIR/layout, intrinsic table, IEEE-exact rewrites, '
               'and the equivalences the property itself grants (-0 == +0, NaN == NaN, min/max on non-NaN lanes).')
 
-CONFIGS_QUICK = ['sse2', 'scalar', 'coresimd']
+CONFIGS_QUICK = ['sse2', 'sse2-fma', 'scalar', 'coresimd']
 CONFIGS_THOROUGH = ['sse2', 'sse2-fma', 'scalar', 'coresimd', 'libm', 'neon', 'wasm32']
 FLOAT_TYPES = {'Vec2': 'f32', 'Vec3': 'f32', 'Vec3A': 'f32', 'Vec4': 'f32', 'DVec2': 'f64', 'DVec3': 'f64', 'DVec4': 'f64'}
 OP_TRAITS = {'Add', 'Sub', 'Mul', 'Div', 'Rem', 'Neg', 'AddAssign', 'SubAssign', 'MulAssign', 'DivAssign', 'RemAssign'}
